@@ -120,7 +120,9 @@ pub fn eval(case: &J) -> Outcome {
             // plain SQLite (no user functions, no textual shims) against the shimmed reference execution
             let plain = rusqlite::Connection::open_in_memory().unwrap();
             let pdb = Db::from_conn(plain); data.load_into(&pdb);
-            let reference = data.load().run(&rel);
+            // reference rows: the ORIGINAL text run directly (independent of every translator); the reference rendering only when SQLite cannot run the original
+            let rdb = data.load();
+            let reference = match rdb.query(&sql) { Ok(r) => { out.tag("reference=original-text"); Ok(r) } Err(_) => rdb.run(&rel) };
             match (pdb.query(&text), reference) {
                 (Ok(a), Ok(b)) => { let ord = case["ordered"].as_bool().unwrap_or(false); if rows_key(&a.1, ord) != rows_key(&b.1, ord) { out.fail(&format!("C17/dialect/sqlite/different-rows/{shape}"), format!("{sql}: {text} returns {:?}, reference {:?}", a.1.iter().take(4).collect::<Vec<_>>(), b.1.iter().take(4).collect::<Vec<_>>())); } else { out.tag("sqlite-executed"); } }
                 (Err(e), _) => out.fail(&format!("C17/dialect/sqlite/not-executable/{}", sqlite_feature(&text)), format!("{sql}: rendered for SQLite as {text}: {e}")),
